@@ -138,17 +138,12 @@ pub fn obscmp(a: &str, b: &str) -> String {
     f.join("\t")
 }
 
-/// KF-E class (F18): a source line whose trailing blank run holds a White_Space character that the
-/// markup lexer treats as text (anything but space, tab and the newline characters), e.g. U+00A0.
+/// KF-E class (F18): the source holds a White_Space character that the markup lexer treats as text
+/// (anything but space, tab and the newline characters), e.g. U+00A0, U+202F, U+3000.
 fn has_exotic_trailing_blank(src: &str) -> bool {
-    for line in src.split(|c| typst_syntax::is_newline(c)) {
-        let trimmed = line.trim_end();
-        let tail = &line[trimmed.len()..];
-        if tail.chars().any(|c| c != ' ' && c != '\t') {
-            return true;
-        }
-    }
-    false
+    // Any such character can end up at a line end once the formatter breaks the line after it.
+    src.chars()
+        .any(|c| c.is_whitespace() && c != ' ' && c != '\t' && !typst_syntax::is_newline(c))
 }
 
 /// KF-F class (F19): a content block whose markup starts, on the bracket's own line, with a list/enum/term
@@ -190,7 +185,33 @@ fn has_linebreak_before_punct(root: &SyntaxNode) -> bool {
     false
 }
 
+/// KF-I class (F26): a Text token that would be lexed as a heading / list / enum / term marker if it stood
+/// at the start of a line (`=`, `-`, `+`, `/`, `1.` alone or followed by a blank); moving it to a line start
+/// (a boundary blank turned into a line break) changes its meaning.
+fn has_marker_like_text(n: &SyntaxNode) -> bool {
+    if n.kind() == K::Text {
+        let t = n.text().as_str();
+        let head = t.split(' ').next().unwrap_or("");
+        let is_marker = !head.is_empty()
+            && (head.chars().all(|c| c == '=')
+                || head == "-"
+                || head == "+"
+                || head == "/"
+                || (head.ends_with('.') && head.len() > 1 && head[..head.len() - 1].chars().all(|c| c.is_ascii_digit())));
+        if is_marker {
+            return true;
+        }
+    }
+    n.children().any(has_marker_like_text)
+}
+
 pub fn run(w: usize, t: usize, reorder: bool, src: &str) -> String {
+    run_with(w, t, reorder, src, None)
+}
+
+/// As `run`, but the oracles judge `given` as if it were the formatter's output for `src`
+/// (used to ask whether the MODEL's output satisfies a property where the implementation's does not).
+pub fn run_with(w: usize, t: usize, reorder: bool, src: &str, given: Option<&str>) -> String {
     let mut f: Vec<String> = Vec::new();
     let source = Source::detached(src.to_string());
     let root = source.root();
@@ -206,10 +227,14 @@ pub fn run(w: usize, t: usize, reorder: bool, src: &str) -> String {
     f.push(format!("kfe={}", has_exotic_trailing_blank(src) as u8));
     f.push(format!("kff={}", has_item_on_bracket_line(root) as u8));
     f.push(format!("kfg={}", has_linebreak_before_punct(root) as u8));
+    f.push(format!("kfi={}", has_marker_like_text(root) as u8));
     let kfd = obs::obs_off(root).iter().any(|x| matches!(x, Some((_, t)) if t.contains('\n')));
     f.push(format!("kfd={}", kfd as u8));
     typstyle_core::verif_hooks::reset();
-    let res = format(config(w, t, reorder), src);
+    let res = match given {
+        Some(g) => Outcome::Ok(g.to_string()),
+        None => format(config(w, t, reorder), src),
+    };
     let cnt = typstyle_core::verif_hooks::get();
     f.push(format!("count={}", cnt));
     match res {
@@ -237,7 +262,7 @@ pub fn run(w: usize, t: usize, reorder: bool, src: &str) -> String {
             let oroot = o2.root();
             let out_err = oroot.erroneous();
             f.push(format!("c04={}", (!out_err) as u8));
-            if !out_err {
+            if true {
                 let a = obs::skeleton(root, reorder);
                 let b = obs::skeleton(oroot, reorder);
                 f.push(format!("c01={}", (a == b) as u8));
@@ -390,6 +415,7 @@ pub fn range(w: usize, t: usize, a: usize, b: usize, src: &str) -> String {
     f.push(format!("kfe={}", has_exotic_trailing_blank(src) as u8));
     f.push(format!("kff={}", has_item_on_bracket_line(root) as u8));
     f.push(format!("kfg={}", has_linebreak_before_punct(root) as u8));
+    f.push(format!("kfi={}", has_marker_like_text(root) as u8));
     let kfd = obs::obs_off(root).iter().any(|x| matches!(x, Some((_, t)) if t.contains('\n')));
     f.push(format!("kfd={}", kfd as u8));
     let cfg = config(w, t, false);
